@@ -152,7 +152,7 @@ Definition apply (ix : option ebm) (op : option cmp_op) (lit : option (option by
 
 (** What a query sees for strategy [EnumBitmap]. *)
 Definition select_enum (ix : option ebm) (all_zones : list N) (op : cmp_op) (lit : bytes) : list N :=
-  select SEnum false all_zones (attempt ix op lit).
+  select SEnum op false all_zones (attempt ix op lit).
 
 (** Brute-force meaning of a probe on one row value (string comparison). *)
 Definition row_matches (op : cmp_op) (v lit : bytes) : bool :=
